@@ -66,6 +66,7 @@ type Plan struct {
 	// - the "handler abandons the body while the stream stays open" case of C12's quantifier (with
 	// go1.26's httputil.ReverseProxy the inbound body is never closed before the handler returns)
 	LocalAbandon       map[string]AbandonPlan
+	ServeFences        bool   // yield before the serve loop's select while an asynchronous write is in flight
 	WriteFences        bool   // yield at the start of writeFrameAsync: a frame write stays in flight as long as the controller likes (stand-in for TCP back-pressure)
 	H2DecoderTableSize uint32 // > 0: proxyserver.Server.HTTP2Server.MaxDecoderHeaderTableSize
 	CancelBeforeServe  bool
@@ -329,7 +330,7 @@ func NewWorld(t testingT, plan *Plan) *World {
 	setDetRand(plan.Tail, 0)
 	http2.VerifResetPools()
 	http2.VerifYield = nil
-	if plan.Fences || plan.CaptureFences || plan.BodyReadFences || plan.WriteFences {
+	if plan.Fences || plan.CaptureFences || plan.BodyReadFences || plan.WriteFences || plan.ServeFences {
 		http2.VerifYield = func(site, remote string) {
 			if site == "capture" {
 				if plan.CaptureFences {
@@ -349,6 +350,17 @@ func NewWorld(t testingT, plan *Plan) *World {
 					w.mu.Unlock()
 					w.Probes["write_fence"]++
 					w.Yield(fmt.Sprintf("write#%05d:%s", k, remote))
+				}
+				return
+			}
+			if site == "serve" {
+				if plan.ServeFences {
+					w.mu.Lock()
+					w.captureSeq++
+					k := w.captureSeq
+					w.mu.Unlock()
+					w.Probes["serve_fence"]++
+					w.Yield(fmt.Sprintf("serve#%05d:%s", k, remote))
 				}
 				return
 			}
